@@ -435,7 +435,8 @@ class Ctx:
         }
         if not self.cov["samples"]:
             self.cov["samples"] = ["(no case completed)"]
-        edir = Path(os.environ.get("VERIF_EVIDENCE_DIR", VERIF / "evidence"))   # redirected only when trying seeded changes
+        # extensions beyond the listed properties (ids X..) keep their evidence apart from the properties' evidence
+        edir = Path(os.environ.get("VERIF_EVIDENCE_DIR", VERIF / ("evidence_extra" if self.pid.startswith("X") else "evidence")))
         edir.mkdir(parents=True, exist_ok=True)
         (edir / f"{self.pid}.json").write_text(json.dumps(ev, indent=1, default=str))
 
